@@ -305,5 +305,114 @@ Section VrProofs.
       + inv Hr. split; [assumption|discriminate].
       + inv Hr. split; [assumption|discriminate].
   Qed.
+
+  (** ** io.CopyN(io.Discard), io.ReadFull and io.Copy around the validated reader *)
+  Hypothesis rd_cap : forall cap s c e s', rd cap s = ((c, e), s') -> lenN c <= cap.
+
+  Lemma vr_read_shape cap st d e st' :
+    vrd cap st = ((d, e), st') -> v_err st <> EUnexp -> lenN d <= cap /\ e <> EUnexp.
+  Proof.
+    unfold vr_read, vr_do_read. intros Hr Hnu.
+    assert (Hnil : lenN [] <= cap) by (unfold lenN; cbn; lia).
+    destruct (v_err st); try (inv Hr; split; [assumption|congruence]).
+    destruct (rd cap (v_u st)) as [[data re] u'] eqn:Hrd.
+    pose proof (rd_cap _ _ _ _ _ Hrd) as Hc. pose proof (rd_no_unexp _ _ _ _ _ Hrd) as Hn.
+    cbn [v_set_u v_rem v_u v_acc v_err v_cbs] in Hr.
+    destruct (v_rem st <? lenN data); [cbn in Hr; inv Hr; split; [assumption|congruence]|].
+    destruct re; cbn [v_rem v_u] in Hr; try congruence.
+    - destruct (v_rem st - lenN data =? 0).
+      + destruct (read_full rd fuel 1 u') as [[fin fe] u''].
+        destruct fe; cbn in Hr;
+          try (destruct (_ <? lenN fin); [inv Hr; split; [assumption|congruence]|];
+               unfold vr_compare in Hr; cbn in Hr; destruct (bytes_eqb _ _); inv Hr; split; (assumption || congruence));
+          inv Hr; split; (assumption || congruence).
+      + inv Hr; split; [assumption|congruence].
+    - cbn in Hr. destruct (negb _); [inv Hr; split; [assumption|congruence]|].
+      unfold vr_compare in Hr. cbn in Hr. destruct (bytes_eqb _ _); inv Hr; split; (assumption || congruence).
+    - inv Hr; split; [assumption|congruence].
+    - inv Hr; split; [assumption|congruence].
+  Qed.
+
+  Definition RInv2 (s0 : S) (st : vst S) (out : bytes) : Prop := RInv s0 st out /\ v_err st <> EUnexp.
+  Lemma RInv2_init u0 : RInv2 u0 (vinit cfg u0) [].
+  Proof. split; [apply RInv_init|cbn; congruence]. Qed.
+  Lemma vr_step2 s0 st out cap d e st' :
+    RInv2 s0 st out -> vrd cap st = ((d, e), st') ->
+    RInv2 s0 st' (out ++ d) /\ v_err st' = e /\ lenN d <= cap /\ e <> EUnexp /\
+    (e <> ENone -> e <> EEof -> d = []).
+  Proof.
+    intros [Hi Hn] Hr. destruct (vr_read_step _ _ _ _ _ _ _ Hi Hr) as (Hi' & He & _ & Hd).
+    destruct (vr_read_shape _ _ _ _ _ Hr Hn) as (Hc & Hne). rsplit; auto. split; [exact Hi'|congruence].
+  Qed.
+
+  Lemma copy_n_vr s0 : forall f left st e st' pre,
+    RInv2 s0 st pre -> copy_n_loop vrd f left st = (e, st') ->
+    exists D, RInv2 s0 st' (pre ++ D) /\ (e = ENone -> lenN D = left) /\
+              (e = EEof -> lenN D < left /\ v_err st' = EEof).
+  Proof.
+    induction f as [|f IH]; intros left st e st' pre Hi Hr; cbn [copy_n_loop] in Hr; destruct (left =? 0) eqn:E0;
+      try (apply N.eqb_eq in E0; subst; inv Hr; exists []; rewrite app_nil_r; rsplit; auto; congruence).
+    - inv Hr. exists []. rewrite app_nil_r. rsplit; auto; congruence.
+    - apply N.eqb_neq in E0.
+      destruct (vrd (N.min discard_buf left) st) as [[c e0] s1] eqn:Hv.
+      destruct (vr_step2 _ _ _ _ _ _ _ Hi Hv) as (Hi1 & He1 & Hcap & Hnu & Hd).
+      destruct e0; try congruence.
+      + destruct (IH _ _ _ _ _ Hi1 Hr) as (D & HiD & Hok & Heof). exists (c ++ D). rewrite app_assoc.
+        rsplit; auto.
+        * intros He. rewrite lenN_app, (Hok He). lia.
+        * intros He. destruct (Heof He) as (Hlt & Hv'). rewrite lenN_app. split; [lia|assumption].
+      + destruct (left - lenN c =? 0) eqn:Ez; inv Hr; exists c; rsplit; auto; try congruence.
+        all: intros _; first [apply N.eqb_eq in Ez; lia | apply N.eqb_neq in Ez; split; [lia|assumption]].
+      + rewrite (Hd ltac:(congruence) ltac:(congruence)) in *. rewrite lenN_nil, N.sub_0_r in Hr.
+        apply N.eqb_neq in E0. destruct (left =? 0) eqn:E1; [apply N.eqb_eq in E1; lia|].
+        inv Hr. exists []. rsplit; auto; congruence.
+      + rewrite (Hd ltac:(congruence) ltac:(congruence)) in *. rewrite lenN_nil, N.sub_0_r in Hr.
+        apply N.eqb_neq in E0. destruct (left =? 0) eqn:E1; [apply N.eqb_eq in E1; lia|].
+        inv Hr. exists []. rsplit; auto; congruence.
+  Qed.
+
+  Lemma read_full_vr2 s0 pre : forall f want got st res e st',
+    RInv2 s0 st (pre ++ got) -> lenN got <= want ->
+    read_full_loop vrd f want got st = ((res, e), st') ->
+    RInv2 s0 st' (pre ++ res) /\ (e = ENone -> lenN res = want) /\
+    (e = EEof \/ e = EUnexp -> v_err st' = EEof /\ lenN res < want).
+  Proof.
+    induction f as [|f IH]; intros want got st res e st' Hi Hg Hr; cbn [read_full_loop] in Hr;
+      destruct (want <=? lenN got) eqn:Hw;
+      try (apply N.leb_le in Hw; inv Hr; rsplit; auto; [intros _; lia|intros [?|?]; congruence]).
+    - inv Hr. rsplit; auto; [congruence|intros [?|?]; congruence].
+    - apply N.leb_gt in Hw.
+      destruct (vrd (want - lenN got) st) as [[c e0] s1] eqn:Hv.
+      destruct (vr_step2 _ _ _ _ _ _ _ Hi Hv) as (Hi1 & He1 & Hcap & Hnu & Hd). rewrite <- app_assoc in Hi1.
+      assert (Hg1 : lenN (got ++ c) <= want) by (rewrite lenN_app; lia).
+      destruct e0; try congruence.
+      + eapply IH; eassumption.
+      + destruct (want <=? lenN (got ++ c)) eqn:Hw2.
+        * apply N.leb_le in Hw2. inv Hr. rsplit; auto; [intros _; lia|intros [?|?]; congruence].
+        * apply N.leb_gt in Hw2. destruct (is_nil (got ++ c)); inv Hr; (rsplit; auto; congruence).
+      + rewrite (Hd ltac:(congruence) ltac:(congruence)) in *. rewrite app_nil_r in *.
+        replace (want <=? lenN got) with false in Hr by (symmetry; apply N.leb_gt; lia).
+        inv Hr. rsplit; auto; [congruence|intros [?|?]; congruence].
+      + rewrite (Hd ltac:(congruence) ltac:(congruence)) in *. rewrite app_nil_r in *.
+        replace (want <=? lenN got) with false in Hr by (symmetry; apply N.leb_gt; lia).
+        inv Hr. rsplit; auto; [congruence|intros [?|?]; congruence].
+  Qed.
+
+  Lemma copy_vr s0 cap : forall f w st w' e' st' pre,
+    RInv2 s0 st pre -> copy_loop vrd f cap w st = ((w', e'), st') ->
+    exists R, w' = w ++ R /\ RInv2 s0 st' (pre ++ R) /\ (e' = ENone -> v_err st' = EEof).
+  Proof.
+    induction f as [|f IH]; intros w st w' e' st' pre Hi Hr; cbn [copy_loop] in Hr.
+    - inv Hr. exists []. rewrite !app_nil_r. rsplit; auto. congruence.
+    - destruct (vrd cap st) as [[c e0] s1] eqn:Hv.
+      destruct (vr_step2 _ _ _ _ _ _ _ Hi Hv) as (Hi1 & He1 & _ & _ & _).
+      destruct e0; try (inv Hr; exists c; rsplit; auto; congruence).
+      destruct (IH _ _ _ _ _ _ Hi1 Hr) as (R & -> & HiR & He). exists (c ++ R). rewrite !app_assoc. rsplit; auto.
+  Qed.
+
+  (** a state in which the validated reader has reported io.EOF *)
+  Lemma RInv2_eof s0 st out :
+    RInv2 s0 st out -> v_err st = EEof -> cont s0 = (out, EEof) /\ lenN out = g_size cfg /\ g_hash cfg = H out.
+  Proof. intros [[_ Hi] _] He. rewrite He in Hi. exact Hi. Qed.
 End VrProofs.
 Arguments valid_reader H cfg {S}.
